@@ -277,8 +277,8 @@ pub fn run(ctx: &mut Ctx) {
 
     // 3. length families: every length 0..=600
     let maxl: usize = 600;
-    let unit: [&str; 7] = [" ", "1", "-", "\u{e9}", "A", "9", "Y"];
-    let fixed_pics: [&str; 9] = ["YYYY", "DD", "FF", "MONTH", "DAY", " ", "YYYY-MM-DD HH24:MI:SS.FF", "D", "HH12 AM"];
+    let unit: [&str; 9] = [" ", "1", "-", "\u{e9}", "A", "9", "Y", "\u{4e2d}", "\u{1f600}"];
+    let fixed_pics: [&str; 16] = ["YYYY", "DD", "FF", "MONTH", "DAY", " ", "YYYY-MM-DD HH24:MI:SS.FF", "D", "HH12 AM", "-", ";", "/", "T", ":", "YYYY/MM", "DD,MON"];
     ctx.bound("length_families", json!(format!("runs of each of {unit:?} of every length 0..={maxl} as picture, as input under {fixed_pics:?}, and (blanks) embedded between two tokens; pictures of 1..=40 repetitions of every token kind")));
     let r = ctx.sweep_each(&format!("{pre}length_families"), "runs of every length 0..=600 of blanks / digits / hyphens / multi-byte / letters as picture and as input", (maxl as u64 + 1) * unit.len() as u64, 8, |idx, acc| {
         let len = (idx / unit.len() as u64) as usize;
@@ -295,6 +295,13 @@ pub fn run(ctx: &mut Ctx) {
                 parse_all_types(acc, idx, &f, fp, &run, p);
                 parse_all_types(acc, idx, &f, fp, &format!("2021{run}"), p);
                 parse_all_types(acc, idx, &f, fp, &format!("{run}1"), p);
+                // multi-byte runs shifted by one, two and three ASCII bytes (every alignment of a
+                // character against a byte offset)
+                if u.len() > 1 {
+                    for pre in ["a", "ab", "abc"] {
+                        parse_all_types(acc, idx, &f, fp, &format!("{pre}{run}"), p);
+                    }
+                }
             }
         }
     });
@@ -335,6 +342,91 @@ pub fn run(ctx: &mut Ctx) {
         }
     });
     ctx.require(&r, &["written", "sink_error"]);
+
+    // 5. realistic pictures x every field replaced by boundary numbers
+    let nums: [&str; 16] = ["0", "00", "000", "1", "12", "13", "31", "32", "59", "60", "99", "365", "366", "367", "999", "9999"];
+    let shapes: Vec<(&str, Vec<&str>)> = vec![
+        ("DDD YYYY", vec!["{} 2021", "{} 2024", "366 {}", "001 {}"]), ("YYYY DDD", vec!["2021 {}", "{} 366", "{} 060"]), ("DDD", vec!["{}"]), ("YYYY-MM-DD", vec!["{}-02-29", "2021-{}-31", "2021-02-{}"]),
+        ("DD MON YYYY", vec!["{} Feb 2021", "29 Feb {}"]), ("HH24:MI:SS.FF", vec!["{}:00:00", "23:{}:59", "23:59:{}", "23:59:59.{}"]), ("HH12:MI AM", vec!["{}:30 PM", "12:{} am"]),
+        ("YYYY-MM", vec!["+{}-11", "-{}-00", "+1-{}"]), ("DD HH24:MI:SS", vec!["+{} 23:59:59", "-1 {}:00:00", "+0 00:{}:00"]), ("D YYYY-MM-DD", vec!["{} 2021-04-22"]), ("YY-MM-DD", vec!["{}-02-29", "+{}-02-28", "-{}-02-28"]),
+        ("YYYY-MM-DD DDD D", vec!["2024-12-31 {} 3", "2021-04-22 112 {}"]),
+    ];
+    let mut cases: Vec<(String, String)> = Vec::new();
+    for (pic, tmpls) in &shapes {
+        for t in tmpls {
+            for n in nums.iter() {
+                cases.push((pic.to_string(), t.replace("{}", n)));
+            }
+            for big in ["99999", "2147483647", "2147483648", "4294967295", "4294967296", "99999999999999999999"] {
+                cases.push((pic.to_string(), t.replace("{}", big)));
+            }
+        }
+    }
+    let cases_r = &cases;
+    let r = ctx.sweep_each(&format!("{pre}boundary_numbers_in_realistic_pictures"), "twelve realistic pictures x texts in which one field at a time takes boundary numbers (0, 00, 12/13, 31/32, 59/60, 365/366/367, 999, 9999, 2^31, 2^32, 20 digits) x 6 types", cases.len() as u64, 16, |idx, acc| {
+        let (pic, text) = &cases_r[idx as usize];
+        acc.states += 1;
+        if let Ok(f) = Formatter::try_new(pic) {
+            acc.nontrivial += 1;
+            parse_all_types(acc, idx, &f, pic, text, p);
+        }
+    });
+    ctx.require(&r, &["parsed", "parse_error"]);
+
+    // 6. the serde entry points are safe public functions too
+    let canon: Vec<(Ty, String)> = pr.iter().map(|tv| {
+        let pic = match tv.ty { Ty::Date => "YYYY-MM-DD", Ty::Time => "HH24:MI:SS.FF6", Ty::Timestamp => "YYYY-MM-DD HH24:MI:SS.FF6", Ty::IntervalYM => "YYYY-MM", Ty::IntervalDT => "DD HH24:MI:SS.FF6", Ty::OracleDate => "YYYY-MM-DD HH24:MI:SS" };
+        (tv.ty, tv.format_with(&Formatter::try_new(pic).unwrap()).unwrap_or_default())
+    }).collect();
+    let canon_r = &canon;
+    let nc = canon.len() as u64;
+    let r = ctx.sweep_each(&format!("{pre}serde_payloads"), "JSON strings: canonical text (also with 'T' for the blank) followed / preceded by runs of blanks, digits, 'x' and multi-byte characters of every length 0..=300; JSON non-strings; bincode payloads of every length 0..=16 filled with 0x00 / 0x7f / 0xff", nc * 301, 8, |idx, acc| {
+        let (ty, text) = &canon_r[(idx % nc) as usize];
+        let len = (idx / nc) as usize;
+        acc.states += 1;
+        let mut docs: Vec<String> = Vec::new();
+        for u in [" ", "0", "x", "\u{4e2d}"] {
+            let run = u.repeat(len);
+            docs.push(format!("\"{text}{run}\""));
+            docs.push(format!("\"{run}{text}\""));
+            docs.push(format!("\"{}{run}\"", text.replacen(' ', "T", 1)));
+        }
+        if len < 8 { for d in ["null", "true", "0", "-1", "1e400", "[]", "{}", "\"\"", "", "\"\\u0000\""] { docs.push(d.to_string()); } }
+        for d in &docs {
+            acc.t(1);
+            let r = guard(|| match ty {
+                Ty::Date => serde_json::from_str::<Date>(d).is_ok(),
+                Ty::Time => serde_json::from_str::<Time>(d).is_ok(),
+                Ty::Timestamp => serde_json::from_str::<Timestamp>(d).is_ok(),
+                Ty::IntervalYM => serde_json::from_str::<IntervalYM>(d).is_ok(),
+                Ty::IntervalDT => serde_json::from_str::<IntervalDT>(d).is_ok(),
+                Ty::OracleDate => serde_json::from_str::<OracleDate>(d).is_ok(),
+            });
+            match r {
+                Ok(true) => acc.cls("decoded"),
+                Ok(false) => acc.cls("decode_error"),
+                Err(()) => acc.fail(&format!("C03:{p}:serde-json-decode:panic"), idx, || (format!("serde_json::from_str::<{ty:?}>({d:?})"), "a value or an error".into(), "panic".into(), String::new())),
+            }
+        }
+        if len <= 16 {
+            for fill in [0x00u8, 0x7f, 0xff, 0x80] {
+                let bytes = vec![fill; len];
+                acc.t(1);
+                let r = guard(|| match ty {
+                    Ty::Date => bincode::deserialize::<Date>(&bytes).is_ok(),
+                    Ty::Time => bincode::deserialize::<Time>(&bytes).is_ok(),
+                    Ty::Timestamp => bincode::deserialize::<Timestamp>(&bytes).is_ok(),
+                    Ty::IntervalYM => bincode::deserialize::<IntervalYM>(&bytes).is_ok(),
+                    Ty::IntervalDT => bincode::deserialize::<IntervalDT>(&bytes).is_ok(),
+                    Ty::OracleDate => bincode::deserialize::<OracleDate>(&bytes).is_ok(),
+                });
+                if r.is_err() {
+                    acc.fail(&format!("C03:{p}:bincode-decode:panic"), idx, || (format!("bincode::deserialize::<{ty:?}>({len} bytes of {fill:#04x})"), "a value or an error".into(), "panic".into(), String::new()));
+                } else { acc.cls("binary_decode_returned"); }
+            }
+        }
+    });
+    ctx.require(&r, &["decoded", "decode_error", "binary_decode_returned"]);
 
     // ---- the other profile, in a child process
     if p == "fast" && !ctx.child && ctx.replay.is_none() {
